@@ -436,7 +436,7 @@ def run_random(ctx, case):
 # --------------------------------------------------------------------------------------------- other seed-taking APIs
 @st.composite
 def _strat_api(draw, tier='quick'):
-    return dict(api=draw(st.sampled_from(['measure', 'circuit_measure', 'clifford_random', 'minimize', 'minimize_adam', 'purification', 'cha'])),
+    return dict(api=draw(st.sampled_from(['measure', 'circuit_measure', 'clifford_random', 'minimize', 'minimize_adam', 'purification', 'cha', 'chagd_boundary', 'pureb_boundary'])),
                 seed=draw(_seed), noise=[list(x) for x in draw(_noise)], n=draw(st.integers(1, 4)), prng=draw(st.integers(0, 2 ** 31)))
 
 
@@ -500,6 +500,14 @@ def run_api(ctx, case):
             model = nq.entangle.CHABoundaryBagging((2, 2))
             beta, info = model.solve(rho, maxiter=3, return_info=True, seed=seed)
             return [np.array(beta)] + [np.asarray(x) for x in info if isinstance(x, np.ndarray)]
+        if api in ('chagd_boundary', 'pureb_boundary'):
+            rho = ref.rand_dm(ref.rng(case['prng']), 4)
+            if api == 'chagd_boundary':
+                m = nq.entangle.AutodiffCHAREE((2, 2), num_state=4, distance_kind='gellmann')
+            else:
+                m = nq.entangle.PureBosonicExt(2, 2, 2, distance_kind='gellmann')
+            beta = m.get_boundary(rho, xtol=0.1, converge_tol=1e-4, num_repeat=1, use_tqdm=False, seed=seed)
+            return [np.array(beta), m.dm_torch.numpy().copy()]
         raise ValueError(api)
     try:
         a = once()
